@@ -85,7 +85,7 @@ def result_points(case, r):
 
 # ----------------------------------------------------------------------------- generation
 def gen_cases(rng, tier, per_fn=None):
-    n = per_fn or (40 if tier == "quick" else 600)
+    n = per_fn or (36 if tier == "quick" else 600)
     cases = []
     for fn in pl.FUNCS:
         ka, kb = pl.kinds_of(fn)
@@ -495,7 +495,7 @@ def run(tier, seed, replay=None):
                 # CPU budget of the quick tier: the Coq checker (55 ms/case) judges the corpus, every case the python
                 # oracle rejects, and the first 12 cases per function; the rest is judged by the python exact oracle alone
                 q = per_fn_quota.get(c["fn"], 0)
-                if c["stream"] != "corpus" and id(c) not in {id(x) for x, _, _ in bad} and q >= 12:
+                if c["stream"] != "corpus" and id(c) not in {id(x) for x, _, _ in bad} and q >= 10:
                     n_pyonly += 1
                     continue
                 per_fn_quota[c["fn"]] = q + 1
